@@ -1,7 +1,7 @@
 (* C12/Properties.v — the property theorems of C12, and nothing else.
    Every theorem is closed by [exact <lemma>] and followed by Print Assumptions. *)
 From Coq Require Import NArith List Bool.
-From Morfuse Require Import Base.Arr C12.Model C12.Spec C12.Proofs.
+From Morfuse Require Import Base.Arr C12.Model C12.Spec C12.Proofs C12.ProofsCor.
 Import ListNotations.
 Local Open Scope N_scope.
 
@@ -57,4 +57,111 @@ Example C12_spec_history :
    [RTo (Some 0) false; RTo (Some 0) false; RTo (Some 1) true];
    [RNull; RNull; RTo (Some 1) true];
    [RDead; RNull; RTo (Some 1) true]].
+Proof. vm_compute. reflexivity. Qed.
+
+(* ---- the sentences of the property, one by one, for EVERY history, about the model [run] ----
+   Vocabulary (C12/ProofsCor.v): [shows no nr ops i j x] = after the i-th operation (0-based) of
+   the history [ops], the observation of [run no nr ops] exists and reference slot j shows x;
+   [objs_below no ops] / [refs_below nr ops] = every ONewObj / ONewRef of the history names a
+   slot below no / nr (the slots the observation looks at); [obj_alive ops os] = the last
+   ONewObj/ODelObj on object slot os in [ops] is an ONewObj; [op_ref o] = the reference slot the
+   operation names; [writes_ref rs o] = o is ONewRef rs _ or OAssign rs _; [target_of x] = x
+   without the is-last flag; [count_shown os obs] = number of slots of obs showing RTo (Some os) _. *)
+
+(* A reference never dangles: whenever a reference slot reads as pointing to an object, it
+   shows an observed object slot (never [RTo None _]) and that slot holds a live object at that
+   moment (created and not destroyed since). *)
+Theorem C12_never_dangles :
+  forall (no nr : nat) (ops : list op),
+    objs_below no ops = true ->
+    forall (i j : nat) (t : option N) (b : bool),
+      shows no nr ops i j (RTo t b) ->
+      exists os, t = Some os /\ (N.to_nat os < no)%nat /\
+                 obj_alive (firstn (S i) ops) os = true.
+Proof. exact never_dangles. Qed.
+Print Assumptions C12_never_dangles.
+
+(* Destroying the object in slot os nulls exactly the references to it: every reference slot
+   that showed that object shows null afterwards, and every other reference slot shows exactly
+   what it showed before, including its is-last flag (os an observed slot). *)
+Theorem C12_destroy_nulls_exactly_the_references_to_it :
+  forall (no nr : nat) (ops : list op) (i : nat) (os : N),
+    nth_error ops (S i) = Some (ODelObj os) ->
+    forall (j : nat) (x x' : robs),
+      shows no nr ops i j x -> shows no nr ops (S i) j x' ->
+      (forall b, x = RTo (Some os) b -> x' = RNull) /\
+      ((N.to_nat os < no)%nat -> (forall b, x <> RTo (Some os) b) -> x' = x).
+Proof. exact destroy_nulls_exactly. Qed.
+Print Assumptions C12_destroy_nulls_exactly_the_references_to_it.
+
+(* "From then on": a reference that reads null keeps reading null (dead once it is destroyed)
+   whatever happens to objects and to other references, until an operation constructs or
+   assigns that very slot. *)
+Theorem C12_null_stays_null_until_written :
+  forall (no nr : nat) (ops : list op) (i k j : nat),
+    (i <= k < length ops)%nat ->
+    shows no nr ops i j RNull ->
+    (forall m o, (i < m <= k)%nat -> nth_error ops m = Some o ->
+                 writes_ref (N.of_nat j) o = false) ->
+    exists x, shows no nr ops k j x /\
+              (x = RNull \/ x = RDead) /\
+              ((forall m, (i < m <= k)%nat -> nth_error ops m <> Some (ODelRef (N.of_nat j))) ->
+               x = RNull).
+Proof. exact stays_null. Qed.
+Print Assumptions C12_null_stays_null_until_written.
+
+(* Constructing, copying, reassigning, clearing or destroying one weak reference never changes
+   what any other reference slot points to (dead / null / which object). *)
+Theorem C12_reference_operations_do_not_disturb_the_others :
+  forall (no nr : nat) (ops : list op) (i : nat) (o : op) (rs : N),
+    nth_error ops (S i) = Some o -> op_ref o = Some rs ->
+    forall (j : nat) (x x' : robs),
+      N.of_nat j <> rs ->
+      shows no nr ops i j x -> shows no nr ops (S i) j x' ->
+      target_of x' = target_of x.
+Proof. exact frame_other_refs. Qed.
+Print Assumptions C12_reference_operations_do_not_disturb_the_others.
+
+(* Creating an object changes nothing that any reference shows (a fresh object is never
+   mistaken for the target of an existing reference). *)
+Theorem C12_new_object_changes_no_reference :
+  forall (no nr : nat) (ops : list op) (i : nat) (os : N),
+    nth_error ops (S i) = Some (ONewObj os) ->
+    forall (j : nat) (x x' : robs),
+      shows no nr ops i j x -> shows no nr ops (S i) j x' -> x' = x.
+Proof. exact new_object_changes_nothing. Qed.
+Print Assumptions C12_new_object_changes_no_reference.
+
+(* "Is this the last reference" is true exactly when one weak reference to the object remains:
+   when all references of the history live in observed slots, the flag of a slot showing the
+   object of slot os is true iff exactly one slot of that observation shows that object. *)
+Theorem C12_is_last_iff_exactly_one_reference :
+  forall (no nr : nat) (ops : list op),
+    refs_below nr ops = true ->
+    forall (i : nat) (obs : list robs),
+      nth_error (run no nr ops) i = Some (Some obs) ->
+      forall (j : nat) (os : N) (b : bool),
+        nth_error obs j = Some (RTo (Some os) b) ->
+        (b = true <-> count_shown os obs = 1%nat).
+Proof. exact last_reference_exact. Qed.
+Print Assumptions C12_is_last_iff_exactly_one_reference.
+
+(* the side conditions hold for the history of C12_model_history (2 object slots, 3 reference
+   slots), and object slot 0 is dead / object slot 1 alive at its end *)
+Example C12_history_side_conditions :
+  let h := [ONewObj 0; ONewObj 1;
+            ONewRef 0 (SObj 0); ONewRef 1 (SRef 0); ONewRef 2 (SObj 1);
+            OAssign 1 (SObj 0); OClear 1; OAssign 1 (SRef 0);
+            ODelObj 0; ODelRef 0] in
+  (objs_below 2 h, refs_below 3 h, obj_alive h 0, obj_alive h 1,
+   obj_alive (firstn 8 h) 0, count_shown 0 [RTo (Some 0) false; RTo (Some 0) false; RTo (Some 1) true]) =
+  (true, true, false, true, true, 2%nat).
+Proof. vm_compute. reflexivity. Qed.
+
+(* the side condition of the last-reference theorem is needed: a reference in an unobserved
+   slot (slot 1, nr = 1) is a live reference too *)
+Example C12_unobserved_reference_counts :
+  (refs_below 1 [ONewObj 0; ONewRef 0 (SObj 0); ONewRef 1 (SObj 0)],
+   run 1 1 [ONewObj 0; ONewRef 0 (SObj 0); ONewRef 1 (SObj 0)]) =
+  (false, [Some [RDead]; Some [RTo (Some 0) true]; Some [RTo (Some 0) false]]).
 Proof. vm_compute. reflexivity. Qed.
